@@ -68,12 +68,12 @@ fn failure_to_json(f: &Option<Failure>) -> J {
 struct ChildResult {
     subs: Vec<J>,
     failure: Option<(String, Input, String)>,
-    digests: BTreeMap<String, String>,
+    digests: Vec<(String, String)>,
     evals: u64,
     known: BTreeMap<String, u64>,
 }
 
-fn run_child(bin: &str, prop: &str, tier: Tier, seed: u64, root: &PathBuf) -> Result<ChildResult, String> {
+fn run_child(bin: &str, prop: &str, tier: Tier, seed: u64, root: &PathBuf, extra: &[String]) -> Result<ChildResult, String> {
     let report = root.join("work").join(format!("child-{}-{}.json", prop, std::process::id()));
     let _ = std::fs::create_dir_all(root.join("work"));
     let _ = std::fs::remove_file(&report);
@@ -82,6 +82,7 @@ fn run_child(bin: &str, prop: &str, tier: Tier, seed: u64, root: &PathBuf) -> Re
         .arg(root)
         .arg("--child-report")
         .arg(&report)
+        .args(extra)
         .output()
         .map_err(|e| format!("cannot run {}: {}", bin, e))?;
     let stdout = String::from_utf8_lossy(&out.stdout).to_string();
@@ -98,12 +99,12 @@ fn run_child(bin: &str, prop: &str, tier: Tier, seed: u64, root: &PathBuf) -> Re
     let _ = std::fs::remove_file(&report);
     let j = json::parse(&text).ok_or("child report is not JSON")?;
     let subs = j.get("subs").and_then(|s| s.as_arr()).cloned().unwrap_or_default();
-    let mut digests = BTreeMap::new();
+    let mut digests = Vec::new();
     let mut evals = 0;
     let mut known = BTreeMap::new();
     for s in &subs {
         if let (Some(n), Some(d)) = (s.get("name").and_then(|x| x.as_str()), s.get("digest").and_then(|x| x.as_str())) {
-            digests.insert(n.to_string(), d.to_string());
+            digests.push((n.to_string(), d.to_string()));
         }
         evals += s.get("evaluations").and_then(|x| x.as_i64()).unwrap_or(0) as u64;
         if let Some(J::Obj(k)) = s.get("known_findings") {
@@ -122,6 +123,147 @@ fn run_child(bin: &str, prop: &str, tier: Tier, seed: u64, root: &PathBuf) -> Re
         _ => None,
     };
     Ok(ChildResult { subs, failure, digests, evals, known })
+}
+
+fn load_corpus(dir: &str, framed: bool, cap: usize) -> Vec<Input> {
+    let mut files: Vec<PathBuf> = Vec::new();
+    let mut stack = vec![PathBuf::from(dir)];
+    while let Some(d) = stack.pop() {
+        if let Ok(rd) = std::fs::read_dir(&d) {
+            for e in rd.flatten() {
+                let p = e.path();
+                if p.is_dir() {
+                    stack.push(p);
+                } else {
+                    files.push(p);
+                }
+            }
+        }
+    }
+    files.sort();
+    files.truncate(cap);
+    files
+        .iter()
+        .filter_map(|f| std::fs::read(f).ok())
+        .map(|b| if framed { if b.is_empty() { b } else { mqv::mutate::reframe(b[0], &b[1..]) } } else { b })
+        .map(Input::Bytes)
+        .collect()
+}
+
+/// delta debugging on the check's own predicate
+fn minimize(sub: &run::Sub, prop: &'static str, mut b: Vec<u8>) -> Vec<u8> {
+    let fails = |x: &[u8]| run::run_single(sub, &Input::Bytes(x.to_vec()), prop).is_err();
+    let mut chunk = b.len() / 2;
+    while chunk >= 1 {
+        let mut i = 0;
+        let mut changed = false;
+        while i + chunk <= b.len() {
+            let mut c = b.clone();
+            c.drain(i..i + chunk);
+            if fails(&c) {
+                b = c;
+                changed = true;
+            } else {
+                i += chunk;
+            }
+        }
+        if !changed {
+            chunk /= 2;
+        }
+    }
+    // simplify bytes
+    for i in 0..b.len() {
+        for v in [0u8, 1, 0x61] {
+            if b[i] != v {
+                let old = b[i];
+                b[i] = v;
+                if fails(&b) {
+                    break;
+                }
+                b[i] = old;
+            }
+        }
+    }
+    b
+}
+
+fn cmd_gencorpus(a: &Args) -> i32 {
+    use mqv::fam::{Family, V3, V5};
+    let out = PathBuf::from(a.pos.first().cloned().unwrap_or_else(|| usage()));
+    let n: usize = a.opts.get("n").and_then(|x| x.parse().ok()).unwrap_or(300);
+    let seed: u64 = a.opts.get("seed").and_then(|x| x.parse().ok()).unwrap_or(0);
+    let kind = a.opts.get("kind").cloned().unwrap_or_else(|| "raw".into());
+    let _ = std::fs::create_dir_all(&out);
+    // deterministic tapes from a small LCG (corpus files are inputs of the fuzzer, not part of a property)
+    let mut x = seed.wrapping_mul(0x9E3779B97F4A7C15).wrapping_add(0x1234_5678_9ABC_DEF1);
+    let mut next = move || {
+        x = x.wrapping_mul(6364136223846793005).wrapping_add(1442695040888963407);
+        (x >> 33) as u16
+    };
+    let mut written = 0;
+    for i in 0..n {
+        let len = 8 + (next() as usize % 200);
+        let tape: Vec<u16> = (0..len).map(|_| next()).collect();
+        let bytes: Vec<u8> = match kind.as_str() {
+            "tape" => tape.iter().flat_map(|v| v.to_le_bytes()).collect(),
+            _ => {
+                let mut t = mqv::tape::Tape::new(&tape);
+                let cfg = mqv::gen::GenCfg::SMALL;
+                let (b, _) = if i % 2 == 0 { mqv::corpus::gen_input::<V3>(&mut t, &cfg) } else { mqv::corpus::gen_input::<V5>(&mut t, &cfg) };
+                let _ = (V3::FAM, V5::FAM);
+                if kind == "unframed" {
+                    // [control byte] ++ body: strip the remaining-length field
+                    match mqv::refdec::frame_bounds(&b) {
+                        Ok((hl, _)) if hl <= b.len() => {
+                            let mut v = vec![b[0]];
+                            v.extend_from_slice(&b[hl..]);
+                            v
+                        }
+                        _ => b,
+                    }
+                } else {
+                    b
+                }
+            }
+        };
+        if bytes.len() <= 4096 && std::fs::write(out.join(format!("seed-{:05}", i)), &bytes).is_ok() {
+            written += 1;
+        }
+    }
+    println!("gencorpus: {} files in {}", written, out.display());
+    0
+}
+
+fn cmd_fuzz_triage(a: &Args) -> i32 {
+    let prop_arg = a.pos.first().cloned().unwrap_or_else(|| usage());
+    let file = a.pos.get(1).cloned().unwrap_or_else(|| usage());
+    let root = PathBuf::from(a.opts.get("root").cloned().unwrap_or_else(|| "/verif".into()));
+    let prop = match checks::static_prop(&prop_arg) {
+        Some(p) => p,
+        None => return 2,
+    };
+    mqv::kf::load(&root);
+    run::install_panic_hook();
+    let raw = match std::fs::read(&file) {
+        Ok(b) => b,
+        Err(_) => return 2,
+    };
+    let bytes = if checks::fuzz_framed(prop) && !raw.is_empty() { mqv::mutate::reframe(raw[0], &raw[1..]) } else { raw };
+    for sub in checks::byte_subs(prop) {
+        if let Err((_, v)) = run::run_single(&sub, &Input::Bytes(bytes.clone()), prop) {
+            let small = minimize(&sub, prop, bytes.clone());
+            let msg = match run::run_single(&sub, &Input::Bytes(small.clone()), prop) {
+                Err((_, v2)) => v2.msg,
+                Ok(_) => v.msg.clone(),
+            };
+            let path = write_replay(&root, prop, sub.name, &Input::Bytes(small), &format!("[found by libFuzzer, minimised] {}", msg), profile(), 0, Tier::Thorough);
+            println!("FAILED sub-check {}: {}", sub.name, msg);
+            println!("VIOLATION property={} replay={}", prop, path.display());
+            return 1;
+        }
+    }
+    println!("fuzz-triage: artifact {} does not reproduce under the plain {} binary", file, profile());
+    0
 }
 
 fn write_replay(root: &PathBuf, prop: &str, sub: &str, input: &Input, msg: &str, prof: &str, seed: u64, tier: Tier) -> PathBuf {
@@ -163,7 +305,17 @@ fn cmd_check(a: &Args) -> i32 {
     run::install_abort_capture(prop, &root.join("replays").join(prop));
     let mut env = Env::new(prop, tier, seed, root.clone(), profile());
     let res = checks::run(&mut env).expect("registered property");
-    let _ = res;
+    if res.is_ok() {
+        if let Some(dir) = a.opts.get("fuzz-corpus") {
+            let inputs = load_corpus(dir, checks::fuzz_framed(prop), 30_000);
+            env.note(format!("fuzz corpus replayed through the plain {} binary: {} files from {}", profile(), inputs.len(), dir));
+            for sub in checks::byte_subs(prop) {
+                if env.run_inputs(sub, &inputs).is_err() {
+                    break;
+                }
+            }
+        }
+    }
     let child_mode = a.opts.get("child-report");
 
     if let Some(path) = child_mode {
@@ -193,7 +345,12 @@ fn cmd_check(a: &Args) -> i32 {
     let mut inconclusive: Option<String> = None;
     if failure.is_none() && meta.two_profiles {
         if let Some(bin) = a.opts.get("release-bin") {
-            match run_child(bin, prop, tier, seed, &root) {
+            let mut extra: Vec<String> = Vec::new();
+            if let Some(d) = a.opts.get("fuzz-corpus") {
+                extra.push("--fuzz-corpus".into());
+                extra.push(d.clone());
+            }
+            match run_child(bin, prop, tier, seed, &root, &extra) {
                 Ok(c) => {
                     profiles.push(J::s("release"));
                     child_evals = c.evals;
@@ -203,9 +360,9 @@ fn cmd_check(a: &Args) -> i32 {
                     if let Some((sub, input, msg)) = c.failure {
                         failure = Some((sub, input, format!("[release profile] {}", msg), "release"));
                     } else if meta.compare_digests {
-                        for s in &env.subs {
-                            if let Some(d) = c.digests.get(&s.name) {
-                                if *d != format!("{:016x}", s.digest) {
+                        for (i, s) in env.subs.iter().enumerate() {
+                            if let Some((n, d)) = c.digests.get(i) {
+                                if *n == s.name && *d != format!("{:016x}", s.digest) {
                                     failure = Some((
                                         s.name.clone(),
                                         Input::Nums(vec![seed]),
@@ -252,6 +409,9 @@ fn cmd_check(a: &Args) -> i32 {
     ];
     if !child_subs.is_empty() {
         cov.push(("subchecks_release_profile", J::Arr(child_subs)));
+    }
+    if let Some(fs) = a.opts.get("fuzz-stats").and_then(|p| std::fs::read_to_string(p).ok()).and_then(|t| json::parse(&t)) {
+        cov.push(("fuzzing", fs));
     }
     cov.push(("known_finding_hits", J::Obj(known.iter().map(|(k, v)| (k.clone(), J::Int(*v as i64))).collect())));
     cov.push(("notes", J::Arr(env.notes.iter().map(|n| J::s(n.clone())).collect())));
@@ -353,6 +513,8 @@ fn main() {
     let code = match a.cmd.as_str() {
         "check" => cmd_check(&a),
         "replay" => cmd_replay(&a),
+        "gencorpus" => cmd_gencorpus(&a),
+        "fuzz-triage" => cmd_fuzz_triage(&a),
         "list" => {
             for p in checks::ALL {
                 println!("{}", p);
